@@ -1055,6 +1055,12 @@ func (fv *FuncVerifier) getPure(fn *types.Func, sp *FuncSpec, ts map[*types.Type
 		}
 		pd.names = append(pd.names, n)
 		pd.sorts = append(pd.sorts, r.Sort)
+		pd.bodies = append(pd.bodies, r.S)
+	}
+	for _, f := range formals {
+		// "(a0 Sort)" -> a0
+		f = strings.TrimPrefix(f, "(")
+		pd.formals = append(pd.formals, f[:strings.IndexByte(f, ' ')])
 	}
 	fv.pureDefs[key] = pd
 	fv.pureUsed[sp.Key] = true
@@ -1414,6 +1420,12 @@ func (fv *FuncVerifier) modularCall(fn *types.Func, sp *FuncSpec, args []Term, s
 	}
 	sig := fn.Type().(*types.Signature)
 	ord := fv.counter("call:" + sp.Name)
+	// generic callee: its contract is read through the instantiation at this call
+	if ts := fv.callTSubst(fn, fv.curCall); len(ts) > 0 {
+		cur := fv.frame()
+		fv.frames = append(fv.frames, &frame{fd: cur.fd, info: cur.info, pkg: cur.pkg, tsubst: ts, loops: cur.loops})
+		defer func() { fv.frames = fv.frames[:len(fv.frames)-1] }()
+	}
 	// 1. preconditions
 	for i, c := range sp.Requires {
 		t := fv.evalWrapper(sp.PkgPath, c.Wrapper, args, st, nil)
